@@ -254,7 +254,7 @@ func writeEvidence(run *PropRun, tracesValidated, traceMismatch, nviol, nknown, 
 		// vacuity: assertion sites reached
 		harnesses = append(harnesses, map[string]any{
 			"harness": r.Spec.Name, "package": r.Spec.Pkg, "decides": r.Spec.What,
-			"bounds": r.Params, "unwind": r.Unwind,
+			"bounds": r.Params, "unwind": r.Unwind, "go_map_iteration": mapOrderNote(r.Spec.FixedMapOrder),
 			"paths_completed": r.Stats.Completed, "paths_assume_killed": r.Stats.AssumeKilled, "paths_infeasible": r.Stats.Infeasible,
 			"paths_outside_model": r.Stats.Outside, "unwinding_failures": r.Stats.Unwind, "unsupported": r.Stats.Unsupported,
 			"solver_unknown_paths": r.Stats.Unknown, "forks": r.Stats.Forks,
@@ -326,3 +326,10 @@ func writeEvidence(run *PropRun, tracesValidated, traceMismatch, nviol, nknown, 
 }
 
 func jsonUnmarshal(b []byte, v any) error { return json.Unmarshal(b, v) }
+
+func mapOrderNote(fixed bool) string {
+	if fixed {
+		return "insertion order only (order-insensitivity of this code is decided by another harness of the property family)"
+	}
+	return "all orders for maps of <= 4 entries, all rotations of the insertion order beyond; entries inserted during iteration produced or skipped"
+}
